@@ -62,7 +62,7 @@ def _var_items(v):
     return v.name, v.star, ivs
 
 
-def compile_expr(expr, card, qfactor_salt=0):
+def compile_expr(expr, card, qfactor_salt=0, bind_false=True):
     """Return (fn(env, world) -> Fraction, free) where free is the set of (name, star) keys read from env."""
     free = set()
 
@@ -131,7 +131,7 @@ def compile_expr(expr, card, qfactor_salt=0):
                     raise Malformed(f"sum range {r!r} is not a plain variable")
                 if r.name not in card:
                     raise Malformed(f"sum over {r.name} which is not a node of the model")
-            inner_bound = bound | {(n, None) for n in names} | {(n, False) for n in names}
+            inner_bound = bound | {(n, None) for n in names} | ({(n, False) for n in names} if bind_false else set())
             f = comp(e.expression, inner_bound)
             doms = [range(card[n]) for n in names]
 
@@ -141,7 +141,8 @@ def compile_expr(expr, card, qfactor_salt=0):
                 for vals in itt.product(*doms):
                     for n, v in zip(names, vals):
                         env2[(n, None)] = v
-                        env2[(n, False)] = v
+                        if bind_false:
+                            env2[(n, False)] = v
                     r += f(env2, world)
                 return r
 
